@@ -289,19 +289,19 @@ theorem two_areas_le (r : Bytes) (hl ul k : Nat) :
   simp only [List.length_take, List.length_drop]; omega
 
 theorem sig_area_copy_le : ∀ (fuel : Nat),
-    (∀ b : Bytes, sigCopy fuel b ≤ sigDepth fuel b * b.length) ∧
-    (∀ a : Bytes, areaCopy fuel a ≤ areaDepth fuel a * a.length) := by
+    (∀ b : Bytes, sigCopyUncapped fuel b ≤ sigDepthUncapped fuel b * b.length) ∧
+    (∀ a : Bytes, areaCopyUncapped fuel a ≤ areaDepthUncapped fuel a * a.length) := by
   intro fuel
   induction fuel with
-  | zero => constructor <;> intro x <;> simp [sigCopy, areaCopy]
+  | zero => constructor <;> intro x <;> simp [sigCopyUncapped, areaCopyUncapped]
   | succ fuel ih =>
     obtain ⟨ihs, iha⟩ := ih
     constructor
     · intro b
       cases b with
-      | nil => simp [sigCopy]
+      | nil => simp [sigCopyUncapped]
       | cons v r =>
-        simp only [sigCopy, sigDepth]
+        simp only [sigCopyUncapped, sigDepthUncapped]
         by_cases h4 : v.toNat = 4
         · simp only [h4, if_true]
           apply mix_le _ _ _ _ _ _ _ (iha _) (iha _)
@@ -319,7 +319,7 @@ theorem sig_area_copy_le : ∀ (fuel : Nat),
             omega
           · simp [h6]
     · intro a
-      simp only [areaCopy, areaDepth]
+      simp only [areaCopyUncapped, areaDepthUncapped]
       cases hs : subLen a with
       | none => simp
       | some p =>
@@ -359,18 +359,18 @@ theorem beNat_be16 (n : Nat) (h : n < 65536) : beNat (be16 n) = n := by
   have h4 : (n % 256).toUInt8.toNat = n % 256 := toUInt8_toNat_of_lt _ (by omega)
   rw [h3, h4]; omega
 
-theorem areaCopy_nil (f : Nat) : areaCopy f [] = 0 := by
-  cases f <;> simp [areaCopy, subLen]
+theorem areaCopy_nil (f : Nat) : areaCopyUncapped f [] = 0 := by
+  cases f <;> simp [areaCopyUncapped, subLen]
 
-theorem areaDepth_nil (f : Nat) : areaDepth f [] = 0 := by
-  cases f <;> simp [areaDepth, subLen]
+theorem areaDepth_nil (f : Nat) : areaDepthUncapped f [] = 0 := by
+  cases f <;> simp [areaDepthUncapped, subLen]
 
 /-- one Embedded Signature subpacket in the 5-octet length form holding exactly `s` -/
 theorem areaCopy_embedded (f : Nat) (s : Bytes) (h : s.length + 1 < 4294967296) :
-    areaCopy (f + 1) ([255] ++ be32 (s.length + 1) ++ [32] ++ s) = s.length + sigCopy f s := by
+    areaCopyUncapped (f + 1) ([255] ++ be32 (s.length + 1) ++ [32] ++ s) = s.length + sigCopyUncapped f s := by
   have hb := beNat_be32 _ h
   rw [be32_eq] at hb ⊢
-  simp only [List.cons_append, List.nil_append, areaCopy, subLen]
+  simp only [List.cons_append, List.nil_append, areaCopyUncapped, subLen]
   have e1 : ¬ ((255 : UInt8).toNat ≤ Gen.subLenOneOctetMax) := by decide
   have e2 : ¬ ((255 : UInt8).toNat ≤ Gen.subLenTwoOctetMax) := by decide
   simp only [e1, e2, if_false]
@@ -384,10 +384,10 @@ theorem areaCopy_embedded (f : Nat) (s : Bytes) (h : s.length + 1 < 4294967296) 
 
 
 theorem areaDepth_embedded (f : Nat) (s : Bytes) (h : s.length + 1 < 4294967296) :
-    areaDepth (f + 1) ([255] ++ be32 (s.length + 1) ++ [32] ++ s) = 1 + sigDepth f s := by
+    areaDepthUncapped (f + 1) ([255] ++ be32 (s.length + 1) ++ [32] ++ s) = 1 + sigDepthUncapped f s := by
   have hb := beNat_be32 _ h
   rw [be32_eq] at hb ⊢
-  simp only [List.cons_append, List.nil_append, areaDepth, subLen]
+  simp only [List.cons_append, List.nil_append, areaDepthUncapped, subLen]
   have e1 : ¬ ((255 : UInt8).toNat ≤ Gen.subLenOneOctetMax) := by decide
   have e2 : ¬ ((255 : UInt8).toNat ≤ Gen.subLenTwoOctetMax) := by decide
   simp only [e1, e2, if_false]
@@ -407,7 +407,7 @@ theorem be16_cases (n : Nat) : ∃ a b : UInt8, be16 n = [a, b] := ⟨_, _, be16
 
 /-- v6 wrapper: everything copied is the inner signature, then the inner signature is parsed -/
 theorem sigCopy_wrap6 (f : Nat) (s : Bytes) (h : s.length + 6 < 4294967296) :
-    sigCopy (f + 2) (nestWrap 6 s) = s.length + sigCopy f s := by
+    sigCopyUncapped (f + 2) (nestWrap 6 s) = s.length + sigCopyUncapped f s := by
   have hb := beNat_be32 (s.length + 6) h
   have hin := areaCopy_embedded f s (by omega)
   obtain ⟨a, b, c, d, hL⟩ := be32_cases (s.length + 6)
@@ -417,7 +417,7 @@ theorem sigCopy_wrap6 (f : Nat) (s : Bytes) (h : s.length + 6 < 4294967296) :
   have h66 : (6 : UInt8).toNat = 6 := by decide
   have n64 : ¬ ((6 : Nat) = 4) := by decide
   simp only [nestWrap, n64, if_false, hL, hL']
-  simp only [List.cons_append, List.nil_append, sigCopy, h66, n64, if_true, if_false]
+  simp only [List.cons_append, List.nil_append, sigCopyUncapped, h66, n64, if_true, if_false]
   have d3 : ∀ (x y z : UInt8) (l : Bytes), List.drop 3 (x :: y :: z :: l) = l := fun _ _ _ _ => rfl
   have t4 : ∀ (x y z w : UInt8) (l : Bytes), List.take 4 (x :: y :: z :: w :: l) = [x, y, z, w] := fun _ _ _ _ _ => rfl
   have d4 : ∀ (x y z w : UInt8) (l : Bytes), List.drop 4 (x :: y :: z :: w :: l) = l := fun _ _ _ _ _ => rfl
@@ -428,7 +428,7 @@ theorem sigCopy_wrap6 (f : Nat) (s : Bytes) (h : s.length + 6 < 4294967296) :
 
 
 theorem sigDepth_wrap6 (f : Nat) (s : Bytes) (h : s.length + 6 < 4294967296) :
-    sigDepth (f + 2) (nestWrap 6 s) = 1 + sigDepth f s := by
+    sigDepthUncapped (f + 2) (nestWrap 6 s) = 1 + sigDepthUncapped f s := by
   have hb := beNat_be32 (s.length + 6) h
   have hin := areaDepth_embedded f s (by omega)
   obtain ⟨a, b, c, d, hL⟩ := be32_cases (s.length + 6)
@@ -438,18 +438,18 @@ theorem sigDepth_wrap6 (f : Nat) (s : Bytes) (h : s.length + 6 < 4294967296) :
   have h66 : (6 : UInt8).toNat = 6 := by decide
   have n64 : ¬ ((6 : Nat) = 4) := by decide
   simp only [nestWrap, n64, if_false, hL, hL']
-  simp only [List.cons_append, List.nil_append, sigDepth, h66, n64, if_true, if_false]
+  simp only [List.cons_append, List.nil_append, sigDepthUncapped, h66, n64, if_true, if_false]
   have d3 : ∀ (x y z : UInt8) (l : Bytes), List.drop 3 (x :: y :: z :: l) = l := fun _ _ _ _ => rfl
   have t4 : ∀ (x y z w : UInt8) (l : Bytes), List.take 4 (x :: y :: z :: w :: l) = [x, y, z, w] := fun _ _ _ _ _ => rfl
   have d4 : ∀ (x y z w : UInt8) (l : Bytes), List.drop 4 (x :: y :: z :: w :: l) = l := fun _ _ _ _ _ => rfl
   have z : beNat [(0 : UInt8), 0, 0, 0] = 0 := by decide
   have tl : List.take s.length (s ++ nestTail6) = s := by simp
   simp only [d3, t4, d4, z, List.take_zero, List.drop_zero, areaDepth_nil, hb, take_six_add, tl]
-  have : areaDepth (f + 1) (255 :: a' :: b' :: c' :: d' :: 32 :: s) = 1 + sigDepth f s := by simpa using hin
+  have : areaDepthUncapped (f + 1) (255 :: a' :: b' :: c' :: d' :: 32 :: s) = 1 + sigDepthUncapped f s := by simpa using hin
   rw [this]; omega
 
 theorem sigCopy_wrap4 (f : Nat) (s : Bytes) (h : s.length + 6 < 65536) :
-    sigCopy (f + 2) (nestWrap 4 s) = s.length + sigCopy f s := by
+    sigCopyUncapped (f + 2) (nestWrap 4 s) = s.length + sigCopyUncapped f s := by
   have hb := beNat_be16 (s.length + 6) h
   have hin := areaCopy_embedded f s (by omega)
   obtain ⟨a, b, hL⟩ := be16_cases (s.length + 6)
@@ -458,7 +458,7 @@ theorem sigCopy_wrap4 (f : Nat) (s : Bytes) (h : s.length + 6 < 65536) :
   rw [hL'] at hin
   have h44 : (4 : UInt8).toNat = 4 := by decide
   simp only [nestWrap, if_true, hL, hL']
-  simp only [List.cons_append, List.nil_append, sigCopy, h44, if_true]
+  simp only [List.cons_append, List.nil_append, sigCopyUncapped, h44, if_true]
   have d3 : ∀ (x y z : UInt8) (l : Bytes), List.drop 3 (x :: y :: z :: l) = l := fun _ _ _ _ => rfl
   have t2 : ∀ (x y : UInt8) (l : Bytes), List.take 2 (x :: y :: l) = [x, y] := fun _ _ _ => rfl
   have d2 : ∀ (x y : UInt8) (l : Bytes), List.drop 2 (x :: y :: l) = l := fun _ _ _ => rfl
@@ -468,7 +468,7 @@ theorem sigCopy_wrap4 (f : Nat) (s : Bytes) (h : s.length + 6 < 65536) :
   simpa using hin
 
 theorem sigDepth_wrap4 (f : Nat) (s : Bytes) (h : s.length + 6 < 65536) :
-    sigDepth (f + 2) (nestWrap 4 s) = 1 + sigDepth f s := by
+    sigDepthUncapped (f + 2) (nestWrap 4 s) = 1 + sigDepthUncapped f s := by
   have hb := beNat_be16 (s.length + 6) h
   have hin := areaDepth_embedded f s (by omega)
   obtain ⟨a, b, hL⟩ := be16_cases (s.length + 6)
@@ -477,33 +477,33 @@ theorem sigDepth_wrap4 (f : Nat) (s : Bytes) (h : s.length + 6 < 65536) :
   rw [hL'] at hin
   have h44 : (4 : UInt8).toNat = 4 := by decide
   simp only [nestWrap, if_true, hL, hL']
-  simp only [List.cons_append, List.nil_append, sigDepth, h44, if_true]
+  simp only [List.cons_append, List.nil_append, sigDepthUncapped, h44, if_true]
   have d3 : ∀ (x y z : UInt8) (l : Bytes), List.drop 3 (x :: y :: z :: l) = l := fun _ _ _ _ => rfl
   have t2 : ∀ (x y : UInt8) (l : Bytes), List.take 2 (x :: y :: l) = [x, y] := fun _ _ _ => rfl
   have d2 : ∀ (x y : UInt8) (l : Bytes), List.drop 2 (x :: y :: l) = l := fun _ _ _ => rfl
   have z : beNat [(0 : UInt8), 0] = 0 := by decide
   have tl : List.take s.length (s ++ nestTail4) = s := by simp
   simp only [d3, t2, d2, z, List.take_zero, List.drop_zero, areaDepth_nil, hb, take_six_add, tl]
-  have : areaDepth (f + 1) (255 :: a' :: b' :: c' :: d' :: 32 :: s) = 1 + sigDepth f s := by simpa using hin
+  have : areaDepthUncapped (f + 1) (255 :: a' :: b' :: c' :: d' :: 32 :: s) = 1 + sigDepthUncapped f s := by simpa using hin
   rw [this]; omega
 
-theorem sigCopy_base (ver f : Nat) : sigCopy f (nestBase ver) = 0 := by
+theorem sigCopy_base (ver f : Nat) : sigCopyUncapped f (nestBase ver) = 0 := by
   cases f with
-  | zero => simp [sigCopy]
+  | zero => simp [sigCopyUncapped]
   | succ f =>
     by_cases hv : ver = 4
     · subst hv
-      simp [nestBase, nestTail4, sigCopy, areaCopy_nil, beNat]
-    · simp [nestBase, hv, nestTail6, sigCopy, areaCopy_nil, beNat]
+      simp [nestBase, nestTail4, sigCopyUncapped, areaCopy_nil, beNat]
+    · simp [nestBase, hv, nestTail6, sigCopyUncapped, areaCopy_nil, beNat]
 
-theorem sigDepth_base (ver f : Nat) : sigDepth f (nestBase ver) = 0 := by
+theorem sigDepth_base (ver f : Nat) : sigDepthUncapped f (nestBase ver) = 0 := by
   cases f with
-  | zero => simp [sigDepth]
+  | zero => simp [sigDepthUncapped]
   | succ f =>
     by_cases hv : ver = 4
     · subst hv
-      simp [nestBase, nestTail4, sigDepth, areaDepth_nil, beNat]
-    · simp [nestBase, hv, nestTail6, sigDepth, areaDepth_nil, beNat]
+      simp [nestBase, nestTail4, sigDepthUncapped, areaDepth_nil, beNat]
+    · simp [nestBase, hv, nestTail6, sigDepthUncapped, areaDepth_nil, beNat]
 
 theorem nestWrap_length (ver : Nat) (s : Bytes) :
     (nestWrap ver s).length = s.length + (if ver = 4 then 19 else 40) := by
@@ -536,7 +536,7 @@ theorem nestCopyClosed_succ (ver d : Nat) :
 /-- v6 (32-bit area lengths): for every depth whose encoding fits, with enough fuel, the parse of
 `nestSig 6 d` copies `nestCopyClosed 6 d` bytes and recurses `d` deep -/
 theorem nest6_cost : ∀ (d f : Nat), 2 * d + 1 ≤ f → nestLen 6 d < 4294967296 →
-    sigCopy f (nestSig 6 d) = nestCopyClosed 6 d ∧ sigDepth f (nestSig 6 d) = d
+    sigCopyUncapped f (nestSig 6 d) = nestCopyClosed 6 d ∧ sigDepthUncapped f (nestSig 6 d) = d
   | 0, f, _, _ => by
     simp [nestSig, sigCopy_base, sigDepth_base, nestCopyClosed]
   | d + 1, f, hf, hsz => by
@@ -551,7 +551,7 @@ theorem nest6_cost : ∀ (d f : Nat), 2 * d + 1 ≤ f → nestLen 6 d < 42949672
 
 /-- v4 (16-bit area lengths) -/
 theorem nest4_cost : ∀ (d f : Nat), 2 * d + 1 ≤ f → nestLen 4 d < 65536 →
-    sigCopy f (nestSig 4 d) = nestCopyClosed 4 d ∧ sigDepth f (nestSig 4 d) = d
+    sigCopyUncapped f (nestSig 4 d) = nestCopyClosed 4 d ∧ sigDepthUncapped f (nestSig 4 d) = d
   | 0, f, _, _ => by
     simp [nestSig, sigCopy_base, sigDepth_base, nestCopyClosed]
   | d + 1, f, hf, hsz => by
@@ -1077,5 +1077,332 @@ theorem takeSeq_alloc : ∀ (sizes : List Nat) (src : List Bytes),
       omega
     · simp only [hok, if_false, List.map_cons, List.map_nil, List.sum_cons, List.sum_nil, List.length_cons]
       omega
+
+/-! ### embedded signatures with the nesting cap: copy volume ≤ (cap − depth) × length -/
+
+theorem scale_le (x y k A B n : Nat) (hx : x ≤ k * A) (hy : y ≤ k * B) (hAB : A + B ≤ n) :
+    x + y ≤ k * n := by
+  have h3 : k * A + k * B = k * (A + B) := by rw [Nat.mul_add]
+  have h4 : k * (A + B) ≤ k * n := Nat.mul_le_mul_left _ hAB
+  omega
+
+theorem sig_area_cost_le (cap : Nat) : ∀ (fuel depth : Nat),
+    (∀ b : Bytes, (sigCost cap fuel depth b).copy ≤ (cap - depth) * b.length) ∧
+    (∀ a : Bytes, (areaCost cap fuel depth a).copy ≤ (cap - depth) * a.length) := by
+  intro fuel
+  induction fuel with
+  | zero => intro depth; constructor <;> intro x <;> simp [sigCost, areaCost]
+  | succ fuel ih =>
+    intro depth
+    obtain ⟨ihs, iha⟩ := ih depth
+    have ihs1 := (ih (depth + 1)).1
+    constructor
+    · intro b
+      cases b with
+      | nil => simp [sigCost]
+      | cons v r =>
+        simp only [sigCost]
+        by_cases h4 : v.toNat = 4
+        · simp only [h4, if_true]
+          have hl := two_areas_le ((r.drop 3).drop 2) (beNat ((r.drop 3).take 2))
+            (beNat ((((r.drop 3).drop 2).drop (beNat ((r.drop 3).take 2))).take 2)) 2
+          have hl' : (List.take (beNat ((r.drop 3).take 2)) ((r.drop 3).drop 2)).length +
+              (List.take (beNat ((((r.drop 3).drop 2).drop (beNat ((r.drop 3).take 2))).take 2))
+                ((((r.drop 3).drop 2).drop (beNat ((r.drop 3).take 2))).drop 2)).length ≤ (v :: r).length := by
+            simp only [List.length_drop, List.length_cons] at hl ⊢; omega
+          split
+          · exact scale_le _ _ _ _ _ _ (iha _) (iha _) hl'
+          · have := scale_le _ 0 _ _ _ _ (iha (List.take (beNat ((r.drop 3).take 2)) ((r.drop 3).drop 2)))
+              (Nat.zero_le _) hl'
+            simpa using this
+        · simp only [h4, if_false]
+          by_cases h6 : v.toNat = 6
+          · simp only [h6, if_true]
+            have hl := two_areas_le ((r.drop 3).drop 4) (beNat ((r.drop 3).take 4))
+              (beNat ((((r.drop 3).drop 4).drop (beNat ((r.drop 3).take 4))).take 4)) 4
+            have hl' : (List.take (beNat ((r.drop 3).take 4)) ((r.drop 3).drop 4)).length +
+                (List.take (beNat ((((r.drop 3).drop 4).drop (beNat ((r.drop 3).take 4))).take 4))
+                  ((((r.drop 3).drop 4).drop (beNat ((r.drop 3).take 4))).drop 4)).length ≤ (v :: r).length := by
+              simp only [List.length_drop, List.length_cons] at hl ⊢; omega
+            split
+            · exact scale_le _ _ _ _ _ _ (iha _) (iha _) hl'
+            · have := scale_le _ 0 _ _ _ _ (iha (List.take (beNat ((r.drop 3).take 4)) ((r.drop 3).drop 4)))
+                (Nat.zero_le _) hl'
+              simpa using this
+          · simp [h6]
+    · intro a
+      simp only [areaCost]
+      cases hs : subLen a with
+      | none => simp
+      | some p =>
+        obtain ⟨l, r⟩ := p
+        simp only
+        have hcons := subLen_consumes a r l hs
+        by_cases hl : l = 0
+        · simp [hl]
+        · simp only [hl, if_false]
+          cases r with
+          | nil => simp
+          | cons t r' =>
+            simp only
+            have hlen : (r'.take (l - 1)).length + (r'.drop (l - 1)).length ≤ a.length := by
+              simp only [List.length_take, List.length_drop, List.length_cons] at hcons ⊢; omega
+            by_cases he : isEmbedded t = true
+            · simp only [he, if_true]
+              by_cases hc : cap ≤ depth
+              · simp [hc]
+              · simp only [hc, if_false]
+                have hb := ihs1 (r'.take (l - 1))
+                have hk : cap - depth = (cap - (depth + 1)) + 1 := by omega
+                have hx : (r'.take (l - 1)).length + (sigCost cap fuel (depth + 1) (r'.take (l - 1))).copy
+                    ≤ (cap - depth) * (r'.take (l - 1)).length := by
+                  rw [hk, Nat.add_mul, Nat.one_mul]; omega
+                split
+                · exact scale_le _ _ _ _ _ _ hx (iha _) hlen
+                · have := scale_le _ 0 _ _ _ _ hx (Nat.zero_le _) hlen
+                  simpa using this
+            · simp only [he]
+              have := scale_le 0 _ _ _ _ _ (Nat.zero_le _) (iha (r'.drop (l - 1))) hlen
+              simpa using this
+
+/-- no signature parser ever runs deeper than the cap -/
+theorem sig_area_reach (cap : Nat) : ∀ (fuel depth : Nat),
+    (∀ b : Bytes, depth ≤ (sigCost cap fuel depth b).reach ∧ (sigCost cap fuel depth b).reach ≤ max cap depth) ∧
+    (∀ a : Bytes, depth ≤ (areaCost cap fuel depth a).reach ∧ (areaCost cap fuel depth a).reach ≤ max cap depth) := by
+  intro fuel
+  induction fuel with
+  | zero => intro depth; constructor <;> intro x <;> simp [sigCost, areaCost] <;> omega
+  | succ fuel ih =>
+    intro depth
+    obtain ⟨ihs, iha⟩ := ih depth
+    have ihs1 := (ih (depth + 1)).1
+    constructor
+    · intro b
+      cases b with
+      | nil => simp only [sigCost]; omega
+      | cons v r =>
+        simp only [sigCost]
+        by_cases h4 : v.toNat = 4
+        · simp only [h4, if_true]
+          split
+          · have a1 := iha (List.take (beNat ((r.drop 3).take 2)) ((r.drop 3).drop 2))
+            have a2 := iha (List.take (beNat ((((r.drop 3).drop 2).drop (beNat ((r.drop 3).take 2))).take 2))
+                ((((r.drop 3).drop 2).drop (beNat ((r.drop 3).take 2))).drop 2))
+            simp only; omega
+          · exact iha _
+        · simp only [h4, if_false]
+          by_cases h6 : v.toNat = 6
+          · simp only [h6, if_true]
+            split
+            · have a1 := iha (List.take (beNat ((r.drop 3).take 4)) ((r.drop 3).drop 4))
+              have a2 := iha (List.take (beNat ((((r.drop 3).drop 4).drop (beNat ((r.drop 3).take 4))).take 4))
+                  ((((r.drop 3).drop 4).drop (beNat ((r.drop 3).take 4))).drop 4))
+              simp only; omega
+            · exact iha _
+          · simp only [h6, if_false]; omega
+    · intro a
+      simp only [areaCost]
+      cases hs : subLen a with
+      | none => simp only; omega
+      | some p =>
+        obtain ⟨l, r⟩ := p
+        simp only
+        by_cases hl : l = 0
+        · simp only [hl, if_true]; omega
+        · simp only [hl, if_false]
+          cases r with
+          | nil => simp only; omega
+          | cons t r' =>
+            simp only
+            by_cases he : isEmbedded t = true
+            · simp only [he, if_true]
+              by_cases hc : cap ≤ depth
+              · simp only [hc, if_true]; omega
+              · simp only [hc, if_false]
+                have hb := ihs1 (r'.take (l - 1))
+                have hr := iha (r'.drop (l - 1))
+                split
+                · simp only; omega
+                · simp only; omega
+            · simp only [he]
+              exact iha _
+
+theorem areaCost_nil (cap f depth : Nat) : areaCost cap f depth [] = ⟨0, true, depth⟩ := by
+  cases f <;> simp [areaCost, subLen]
+
+/-- one Embedded Signature subpacket (5-octet length form) holding exactly `s`, at nesting `depth` -/
+theorem areaCost_embedded (cap f depth : Nat) (s : Bytes) (h : s.length + 1 < 4294967296) :
+    areaCost cap (f + 1) depth ([255] ++ be32 (s.length + 1) ++ [32] ++ s) =
+      if cap ≤ depth then ⟨0, false, depth⟩
+      else if (sigCost cap f (depth + 1) s).ok then
+        ⟨s.length + (sigCost cap f (depth + 1) s).copy, true, max (sigCost cap f (depth + 1) s).reach depth⟩
+      else ⟨s.length + (sigCost cap f (depth + 1) s).copy, false, (sigCost cap f (depth + 1) s).reach⟩ := by
+  have hb := beNat_be32 _ h
+  obtain ⟨a', b', c', d', hL'⟩ := be32_cases (s.length + 1)
+  rw [hL'] at hb ⊢
+  simp only [List.cons_append, List.nil_append, areaCost, subLen]
+  have e1 : ¬ ((255 : UInt8).toNat ≤ Gen.subLenOneOctetMax) := by decide
+  have e2 : ¬ ((255 : UInt8).toNat ≤ Gen.subLenTwoOctetMax) := by decide
+  simp only [e1, e2, if_false]
+  simp only [List.length_cons, List.take_succ_cons, List.take_zero, List.drop_succ_cons, List.drop_zero]
+  have e3 : ¬ (s.length + 1 + 1 + 1 + 1 + 1 < 4) := by omega
+  simp only [e3, if_false, hb]
+  have e4 : ¬ (s.length + 1 = 0) := by omega
+  have e5 : isEmbedded 32 = true := by decide
+  simp only [e4, if_false, Nat.add_sub_cancel, List.take_length, List.drop_length, areaCost_nil, e5, if_true]
+  by_cases hc : cap ≤ depth
+  · simp [hc]
+  · simp only [hc, if_false]
+    split <;> simp
+
+theorem sigCost_wrap6 (cap f depth : Nat) (s : Bytes) (h : s.length + 6 < 4294967296) :
+    sigCost cap (f + 2) depth (nestWrap 6 s) =
+      if cap ≤ depth then ⟨0, false, depth⟩
+      else if (sigCost cap f (depth + 1) s).ok then
+        ⟨s.length + (sigCost cap f (depth + 1) s).copy, true, max depth (max (sigCost cap f (depth + 1) s).reach depth)⟩
+      else ⟨s.length + (sigCost cap f (depth + 1) s).copy, false, max depth (sigCost cap f (depth + 1) s).reach⟩ := by
+  have hb := beNat_be32 (s.length + 6) h
+  have hin := areaCost_embedded cap f depth s (by omega)
+  obtain ⟨a, b, c, d, hL⟩ := be32_cases (s.length + 6)
+  obtain ⟨a', b', c', d', hL'⟩ := be32_cases (s.length + 1)
+  rw [hL] at hb
+  rw [hL'] at hin
+  have h66 : (6 : UInt8).toNat = 6 := by decide
+  have n64 : ¬ ((6 : Nat) = 4) := by decide
+  simp only [nestWrap, n64, if_false, hL, hL']
+  simp only [List.cons_append, List.nil_append, sigCost, h66, n64, if_true, if_false]
+  have d3 : ∀ (x y z : UInt8) (l : Bytes), List.drop 3 (x :: y :: z :: l) = l := fun _ _ _ _ => rfl
+  have t4 : ∀ (x y z w : UInt8) (l : Bytes), List.take 4 (x :: y :: z :: w :: l) = [x, y, z, w] := fun _ _ _ _ _ => rfl
+  have d4 : ∀ (x y z w : UInt8) (l : Bytes), List.drop 4 (x :: y :: z :: w :: l) = l := fun _ _ _ _ _ => rfl
+  have z : beNat [(0 : UInt8), 0, 0, 0] = 0 := by decide
+  have tl : List.take s.length (s ++ nestTail6) = s := by simp
+  simp only [d3, t4, d4, z, List.take_zero, List.drop_zero, areaCost_nil, if_true, Nat.zero_add, hb, take_six_add, tl]
+  simp only [List.cons_append, List.nil_append] at hin
+  rw [hin]
+  by_cases hc : cap ≤ depth
+  · simp [hc]
+  · simp only [hc, if_false]
+    split <;> simp
+
+theorem sigCost_base (cap ver f depth : Nat) : sigCost cap f depth (nestBase ver) = ⟨0, true, depth⟩ := by
+  cases f with
+  | zero => simp [sigCost]
+  | succ f =>
+    by_cases hv : ver = 4
+    · subst hv
+      simp [nestBase, nestTail4, sigCost, areaCost_nil, beNat]
+    · simp [nestBase, hv, nestTail6, sigCost, areaCost_nil, beNat]
+
+/-- the capped parser on the witness family: accepted iff the nesting fits under the cap; it copies
+only the levels it enters; no parser runs deeper than the cap -/
+theorem nest6_capped (cap : Nat) : ∀ (d f depth : Nat), 2 * d + 1 ≤ f → nestLen 6 d < 4294967296 → depth ≤ cap →
+    sigCost cap f depth (nestSig 6 d) =
+      ⟨nestCopyCapped 6 d (cap - depth), decide (depth + d ≤ cap), depth + min d (cap - depth)⟩
+  | 0, f, depth, _, _, hd => by
+    have : decide (depth ≤ cap) = true := by simpa using hd
+    simp only [nestSig, sigCost_base, nestCopyCapped, Nat.zero_min, Nat.add_zero, this]
+  | d + 1, f, depth, hf, hsz, hd => by
+    obtain ⟨f', rfl⟩ : ∃ f', f = f' + 2 := ⟨f - 2, by omega⟩
+    have hlen := nestSig_length 6 d
+    have hsz' : nestLen 6 d + 6 < 4294967296 := by
+      simp only [nestLen] at hsz ⊢; simp at hsz ⊢; omega
+    rw [nestSig, sigCost_wrap6 _ _ _ _ (by rw [hlen]; exact hsz')]
+    by_cases hc : cap ≤ depth
+    · have e : cap - depth = 0 := by omega
+      have e2 : decide (depth + (d + 1) ≤ cap) = false := by simp; omega
+      simp only [hc, if_true, e, nestCopyCapped, e2, Nat.min_zero, Nat.add_zero]
+    · simp only [hc, if_false]
+      rw [nest6_capped cap d f' (depth + 1) (by omega) (by omega) (by omega)]
+      obtain ⟨k, hk⟩ : ∃ k, cap - depth = k + 1 := ⟨cap - depth - 1, by omega⟩
+      have hk' : cap - (depth + 1) = k := by omega
+      rw [hk, hk', hlen]
+      simp only [nestCopyCapped]
+      by_cases hok : depth + 1 + d ≤ cap
+      · have e1 : decide (depth + 1 + d ≤ cap) = true := by simpa using hok
+        have e2 : decide (depth + (d + 1) ≤ cap) = true := by simp; omega
+        simp only [e1, e2, if_true]
+        congr 1
+        omega
+      · have e1 : decide (depth + 1 + d ≤ cap) = false := by simpa using hok
+        have e2 : decide (depth + (d + 1) ≤ cap) = false := by simp; omega
+        simp only [e1, e2]
+        simp
+        omega
+
+theorem sigCost_wrap4 (cap f depth : Nat) (s : Bytes) (h : s.length + 6 < 65536) :
+    sigCost cap (f + 2) depth (nestWrap 4 s) =
+      if cap ≤ depth then ⟨0, false, depth⟩
+      else if (sigCost cap f (depth + 1) s).ok then
+        ⟨s.length + (sigCost cap f (depth + 1) s).copy, true, max depth (max (sigCost cap f (depth + 1) s).reach depth)⟩
+      else ⟨s.length + (sigCost cap f (depth + 1) s).copy, false, max depth (sigCost cap f (depth + 1) s).reach⟩ := by
+  have hb := beNat_be16 (s.length + 6) h
+  have hin := areaCost_embedded cap f depth s (by omega)
+  obtain ⟨a, b, hL⟩ := be16_cases (s.length + 6)
+  obtain ⟨a', b', c', d', hL'⟩ := be32_cases (s.length + 1)
+  rw [hL] at hb
+  rw [hL'] at hin
+  have h44 : (4 : UInt8).toNat = 4 := by decide
+  simp only [nestWrap, if_true, hL, hL']
+  simp only [List.cons_append, List.nil_append, sigCost, h44, if_true]
+  have d3 : ∀ (x y z : UInt8) (l : Bytes), List.drop 3 (x :: y :: z :: l) = l := fun _ _ _ _ => rfl
+  have t2 : ∀ (x y : UInt8) (l : Bytes), List.take 2 (x :: y :: l) = [x, y] := fun _ _ _ => rfl
+  have d2 : ∀ (x y : UInt8) (l : Bytes), List.drop 2 (x :: y :: l) = l := fun _ _ _ => rfl
+  have z : beNat [(0 : UInt8), 0] = 0 := by decide
+  have tl : List.take s.length (s ++ nestTail4) = s := by simp
+  simp only [d3, t2, d2, z, List.take_zero, List.drop_zero, areaCost_nil, if_true, Nat.zero_add, hb, take_six_add, tl]
+  simp only [List.cons_append, List.nil_append] at hin
+  rw [hin]
+  by_cases hc : cap ≤ depth
+  · simp [hc]
+  · simp only [hc, if_false]
+    split <;> simp
+
+
+/-- the capped parser on the witness family: accepted iff the nesting fits under the cap; it copies
+only the levels it enters; no parser runs deeper than the cap -/
+theorem nest4_capped (cap : Nat) : ∀ (d f depth : Nat), 2 * d + 1 ≤ f → nestLen 4 d < 65536 → depth ≤ cap →
+    sigCost cap f depth (nestSig 4 d) =
+      ⟨nestCopyCapped 4 d (cap - depth), decide (depth + d ≤ cap), depth + min d (cap - depth)⟩
+  | 0, f, depth, _, _, hd => by
+    have : decide (depth ≤ cap) = true := by simpa using hd
+    simp only [nestSig, sigCost_base, nestCopyCapped, Nat.zero_min, Nat.add_zero, this]
+  | d + 1, f, depth, hf, hsz, hd => by
+    obtain ⟨f', rfl⟩ : ∃ f', f = f' + 2 := ⟨f - 2, by omega⟩
+    have hlen := nestSig_length 4 d
+    have hsz' : nestLen 4 d + 6 < 65536 := by
+      simp only [nestLen] at hsz ⊢; simp at hsz ⊢; omega
+    rw [nestSig, sigCost_wrap4 _ _ _ _ (by rw [hlen]; exact hsz')]
+    by_cases hc : cap ≤ depth
+    · have e : cap - depth = 0 := by omega
+      have e2 : decide (depth + (d + 1) ≤ cap) = false := by simp; omega
+      simp only [hc, if_true, e, nestCopyCapped, e2, Nat.min_zero, Nat.add_zero]
+    · simp only [hc, if_false]
+      rw [nest4_capped cap d f' (depth + 1) (by omega) (by omega) (by omega)]
+      obtain ⟨k, hk⟩ : ∃ k, cap - depth = k + 1 := ⟨cap - depth - 1, by omega⟩
+      have hk' : cap - (depth + 1) = k := by omega
+      rw [hk, hk', hlen]
+      simp only [nestCopyCapped]
+      by_cases hok : depth + 1 + d ≤ cap
+      · have e1 : decide (depth + 1 + d ≤ cap) = true := by simpa using hok
+        have e2 : decide (depth + (d + 1) ≤ cap) = true := by simp; omega
+        simp only [e1, e2, if_true]
+        congr 1
+        omega
+      · have e1 : decide (depth + 1 + d ≤ cap) = false := by simpa using hok
+        have e2 : decide (depth + (d + 1) ≤ cap) = false := by simp; omega
+        simp only [e1, e2]
+        simp
+        omega
+
+theorem nestCopyCapped_le (ver : Nat) : ∀ (d k : Nat), nestCopyCapped ver d k ≤ k * nestLen ver d
+  | 0, _ => by simp [nestCopyCapped]
+  | _ + 1, 0 => by simp [nestCopyCapped]
+  | d + 1, k + 1 => by
+    have ih := nestCopyCapped_le ver d k
+    have hmono : nestLen ver d ≤ nestLen ver (d + 1) := by
+      unfold nestLen; split <;> omega
+    have h2 : k * nestLen ver d ≤ k * nestLen ver (d + 1) := Nat.mul_le_mul_left _ hmono
+    simp only [nestCopyCapped, Nat.add_mul, Nat.one_mul]
+    omega
 
 end Rpgp.Resource
